@@ -30,7 +30,9 @@ EXPLANATION = (
     ' '
     'hygiene .97: a list filled with tuples of named values and consumed by unpacking uses the names in the same order on both sides (closure consumers included).'
     ' '
-    'R-C11.10 all readers of a RenameModel chain take the final name from the same element.')
+    'R-C11.10 all readers of a RenameModel chain take the final name from the same element.'
+    ' '
+    'R-C11.11 = R-C12.14.')
 NOT_DECIDED = (
     'Absence of dangling references for all signatures and sequences; '
     'foreign-key validity in the database after the generated SQL.')
@@ -648,7 +650,13 @@ def r10_rename_chain_readers_agree(ctx):
                                 k, common), key='chain-index-disagrees')
 
 
+def r11_rejection_is_not_cannot_simulate(ctx):
+    from .c12 import r14_rejection_is_not_cannot_simulate
+    r14_rejection_is_not_cannot_simulate(ctx, rule_id='R-C11.11')
+
+
 def run(ctx):
+    r11_rejection_is_not_cannot_simulate(ctx)
     r10_rename_chain_readers_agree(ctx)
     r8_pragma_row_layout(ctx)
     r7_fk_references_live_column(ctx)
